@@ -32,7 +32,6 @@ Proof. intros sigs. exact (max_bit_fold sigs 0). Qed.
 
 (* ---------- covering ---------- *)
 
-Definition wellformed (s : signal) : Prop := 0 <= s_start s /\ 1 <= s_size s.
 
 (* all used bits of s lie in the first n bytes  <->  its end (in its own numbering) does *)
 Lemma covers_one : forall n s, wellformed s ->
